@@ -97,6 +97,18 @@ def catalog():
     s.virt("vy", Op("+", R("w", "inner", "y"), R("h", "deep", "x")))
     ps.append(p)
 
+    # P5c: virtual fields that refer to fields declared LATER (write-through inference must follow the reference, not the
+    # declaration order): adj is not writable because tot is read-only; fwd is writable through raw
+    p = Program("Fwd")
+    s = p.struct("Fw")
+    s.virt("adj", Op("+", "tot", 10))
+    s.transform("fwd", "y+c", "raw", 3)
+    s.virt("tot", Op("+", "a", "b"))
+    s.scalar("a", 0, 1)
+    s.scalar("b", 1, 1)
+    s.scalar("raw", 2, 1)
+    ps.append(p)
+
     # P6: simple transforms (y+c, c+y, y-c, c-y), [requires] on stored and on virtual fields, wide-ish bit fields
     p = Program("Xform")
     s = p.struct("Xf")
